@@ -54,20 +54,23 @@ def _one_obligation(i):
     base = {"name": ob.name, "kind": ob.kind, "func": short, "ln": ob.ln, "clause": ob.text, "canary": ob.canary}
     # cheap pre-filter: goals that already follow from the path condition alone (e.g. a per-type postcondition
     # on a path of another type) need no hypotheses and no external solver
-    pre_s = z3.Solver()
-    pre_s.set("timeout", 150)
-    pre_s.add(pc)
-    pre_s.add(z3.Not(goal))
-    if pre_s.check() == z3.unsat:
-        base["presolved"] = True
-        return base
+    if ob.kind == "cover":
+        base["expect"] = "sat"
+    else:
+        pre_s = z3.Solver()
+        pre_s.set("timeout", 150)
+        pre_s.add(pc)
+        pre_s.add(z3.Not(goal))
+        if pre_s.check() == z3.unsat:
+            base["presolved"] = True
+            return base
     text, fallback = solve.vc_texts(hyps, pc, goal)
     base["text"], base["fallback"] = text, fallback
     if keep:
         base["verifier"], base["ob"] = v, ob
         return base
     tq, tf, cross = _G.get("solve_params", (6.0, 20.0, False))
-    base["result"] = solve.solve_text((ob.name, text, tq, tf, cross, fallback))
+    base["result"] = solve.solve_text((ob.name, text, tq, tf, cross and ob.kind != "cover", fallback))
     base["text"], base["fallback"] = "", None   # do not ship megabytes of SMT text back to the parent
     base["solved_in_worker"] = True
     return base
@@ -101,6 +104,8 @@ def _gen_function(prog, cfg, short, keep):
     if not obs:
         jobs.append({"name": short + ":vacuity:no-obligations", "kind": "vacuity", "status": "failed", "func": short,
                      "detail": "function is listed under contract but generated zero obligations (contract block missing or not bound)"})
+    for (lbl, txt) in getattr(v, "vacuous_calls", []):
+        jobs.append({"name": "%s:vacuity:%s" % (short, lbl), "kind": "vacuity", "status": "failed", "func": short, "detail": txt})
     meta["assumptions"] |= v.assumptions
     meta["models"] |= v.models_used
     meta["bounded"] |= v.bounded
@@ -259,6 +264,11 @@ def run(pid, tier, repo="/repo", out_evidence=True, quiet=False):
         j["result"] = r
         exp = j.get("expect", "unsat")
         ok = r["status"] == exp
+        if j.get("kind") == "cover":
+            # a cover fails only when the solver PROVES the condition unreachable (vacuous contract or dead path)
+            ok = r["status"] != "unsat"
+            if not ok:
+                j["detail"] = "cover unreachable (the contract is vacuous on this case or the path is dead): " + (j.get("clause") or "")
         if j.get("canary"):
             if not ok:
                 canary_failed.append(j)
@@ -315,7 +325,7 @@ def run(pid, tier, repo="/repo", out_evidence=True, quiet=False):
             "bounded": sorted(meta["bounded"]) + props.get("bounded", []),
             "loops_summarised_by_schema": sorted(meta.get("summarised", [])),
             "explanation": props.get("explanation", ""),
-            "vacuity_checks": sum(1 for j in jobs if j.get("kind") == "vacuity"),
+            "vacuity_checks": sum(1 for j in jobs if j.get("kind") in ("vacuity", "cover")),
             "integers": "exact-width bit-vectors (wrap-around modelled, nothing treated as mathematical)",
             "cross_checked": cross,
         },
